@@ -84,28 +84,34 @@ static bool cond_eval(bool hasArg, uint32_t a)
 	return v;
 }
 
-template <typename Target> static void add_plain(Target * t, void (*f)(uint32_t))
+template <typename Target> static typename Target::Handle add_plain(Target * t, void (*f)(uint32_t))
 {
 #if TK == 0
-	t->append(f);
+	return t->append(f);
 #else
-	t->appendListener(EV, f);
+	return t->appendListener(EV, f);
 #endif
 }
+static int g_other = 0;
+static void body_other(uint32_t) { g_other++; }
 
 extern "C" void harness()
 {
 	g = new G(); g->t = new T(); g->budget = NB;
-	add_plain(g->t, &body_L0);
+	auto hL0 = add_plain(g->t, &body_L0);
+	unsigned how = vf_choose(3);          // registered through append / prepend / insert-before-L0
+#if TK != 0
+	g->t->appendListener(EV + 1, &body_other);      // a listener of ANOTHER event: never disturbed, never triggered by EV
+#endif
 	bool destroyHelperFirst = vf_choose(2) != 0;
 #if RK == 0
 	g->n = (int32_t)vf_nondet_u32();
 	{
 		auto * rm = new eventpp::CounterRemover<T>(*g->t);
 #if TK == 0
-		rm->append(&body_W, g->n);
+		if(how == 0) rm->append(&body_W, g->n); else if(how == 1) rm->prepend(&body_W, g->n); else rm->insert(&body_W, hL0, g->n);
 #else
-		rm->appendListener(EV, &body_W, g->n);
+		if(how == 0) rm->appendListener(EV, &body_W, g->n); else if(how == 1) rm->prependListener(EV, &body_W, g->n); else rm->insertListener(EV, &body_W, hL0, g->n);
 #endif
 		if(destroyHelperFirst) { delete rm; rm = nullptr; vf_cover(COV_HELPER_DESTROYED); }
 		add_plain(g->t, &body_L2);
@@ -130,9 +136,9 @@ extern "C" void harness()
 		auto cond = []() -> bool { return cond_eval(false, 0); };
 #endif
 #if TK == 0
-		rm->append(&body_W, cond);
+		if(how == 0) rm->append(&body_W, cond); else if(how == 1) rm->prepend(&body_W, cond); else rm->insert(&body_W, hL0, cond);
 #else
-		rm->appendListener(EV, &body_W, cond);
+		if(how == 0) rm->appendListener(EV, &body_W, cond); else if(how == 1) rm->prependListener(EV, &body_W, cond); else rm->insertListener(EV, &body_W, hL0, cond);
 #endif
 		if(destroyHelperFirst) { delete rm; rm = nullptr; vf_cover(COV_HELPER_DESTROYED); }
 		add_plain(g->t, &body_L2);
@@ -147,6 +153,12 @@ extern "C" void harness()
 		if(rm) delete rm;
 	}
 #endif
+#if TK != 0
+	vf_assert(g_other == 0, 153);
+	g->t->dispatch(EV + 1, 1u);
+	vf_assert(g_other == 1, 154);                     // the other event's listener is still attached
+#endif
+	hL0 = typename T::Handle();
 	delete g->t; delete g; g = nullptr;
 	vf_end();
 }
